@@ -71,15 +71,18 @@ impl Palette {
                     let index = index - nb_colors;
                     if index < 64 {
                         for (c, sample) in channels_it.enumerate() {
-                            *sample = S::from_i32(
-                                ((index >> (2 * c)) % 4) * ((1i32 << bit_depth) - 1) / 4
-                                    + (1i32 << bit_depth.saturating_sub(3)),
-                            );
+                            // Computed in 64 bits: `bit_depth` can be as large as 32.
+                            let value = ((index >> (2 * c)) % 4) as i64
+                                * ((1i64 << bit_depth) - 1)
+                                / 4
+                                + (1i64 << bit_depth.saturating_sub(3));
+                            *sample = S::from_i32(value as i32);
                         }
                     } else {
                         let mut index = index - 64;
                         for sample in channels_it {
-                            *sample = S::from_i32((index % 5) * ((1i32 << bit_depth) - 1) / 4);
+                            let value = (index % 5) as i64 * ((1i64 << bit_depth) - 1) / 4;
+                            *sample = S::from_i32(value as i32);
                             index /= 5;
                         }
                     }
